@@ -161,7 +161,7 @@ class C14(Hist1Prop):
         src = {"binning": b, "vals": gen1.enc_vals(vals), "ws": None if ws is None else [rs(w) for w in ws], "wk": wk,
                "order": order, "batches": partition(rng, order2), "cut": cut,
                "scale": rs(rng.choice([2, 4, 0.5, 0.25, 3])),
-               "tail": rng.choice(["sub", "sub_free", "of_arrays", "slice", "none", "none"])}
+               "tail": rng.choice(["sub", "sub_free", "of_arrays", "slice", "add_invalid", "add_invalid", "none", "none"])}
         src["sk"] = rng.choice(["pyint", "int64", "int32", "pyfloat"] if "/" not in src["scale"] else ["pyfloat", "float32", "float64"])
         return self.build(src)
 
@@ -196,6 +196,13 @@ class C14(Hist1Prop):
             ops.append({"op": "sub", "a": 5, "b": 4, "out": 8, "free": True})
         elif src["tail"] == "slice":
             ops.append({"op": "slice", "h": 0, "start": 0, "stop": None, "out": 8})
+        elif src["tail"] == "add_invalid":
+            # a histogram without statistics (built from bare frequencies) added to one with statistics, in both orders:
+            # the sum cannot have statistics either -- every number must read as NaN
+            ops.append({"op": "of_arrays", "out": 8, "binning": b, "freq": ["1"] * len(b["bins"]), "err2": None,
+                        "under": "0", "over": "0", "inner": "0", "dtype": "int64"})
+            ops.append({"op": "add", "a": 0, "b": 8, "out": 9})
+            ops.append({"op": "add", "a": 8, "b": 0, "out": 10})
         elif src["tail"] == "of_arrays":
             ops.append({"op": "of_arrays", "out": 8, "binning": b, "freq": ["1"] * len(b["bins"]), "err2": None,
                         "under": "0", "over": "0", "inner": "0", "dtype": "int64"})
@@ -294,8 +301,14 @@ class C14(Hist1Prop):
             if st0["median"] is None or Fraction(st0["median"]) != med:
                 fails.append(f"median: median after unweighted construction is {st0['median']}, data median is {med}")
         if src["tail"] != "none" and len(regs) > 8 and regs[8] is not None:
-            if regs[8]["stats"]["valid"]:
-                fails.append(f"not_invalidated: statistics still read as valid numbers after {src['tail']}")
+            for r in (8, 9, 10):
+                if r < len(regs) and regs[r] is not None:
+                    st = regs[r]["stats"]
+                    what = src["tail"] if r == 8 else ("adding a histogram without statistics" + (" (on the right)" if r == 9 else " (on the left)"))
+                    if st["valid"]:
+                        fails.append(f"not_invalidated: statistics still read as valid numbers after {what}")
+                    elif st.get("_numbers"):
+                        fails.append(f"not_invalidated: after {what} the statistics are invalid (weight NaN) but {st['_numbers']} still read as numbers")
         return fails[:6]
 
     def nontrivial(self, case, io):
